@@ -27,6 +27,16 @@ Proof. exact flip_slice. Qed.
 Theorem C06_sort_every_length : forall desc l, Permutation (ndx_sort desc l) l.
 Proof. exact sort_perm. Qed.
 
+(* basic indexing, n-D: the operators the lowering emits are a function of the index tuple alone
+   (`ops_of (filter nonnew (map norm1 index))` mentions no tensor), and that one operator list returns
+   NumPy's result on every well-formed tensor of every shape the tuple is valid for *)
+From ND Require Import Ndx.GetItem Ndx.GetItemProof.
+Theorem C06_getitem_one_lowering_every_shape : forall (index : list item),
+  let ops := ops_of (filter nonnew (map norm1 index)) in
+  forall (A : Type) (t : tensor A) (d : A) (r : tensor A),
+  wf t -> valid index (shape t) -> np_getitem t index d = Some r -> ndx_getitem_user t index d = Done r.
+Proof. intros index ops A t d r. apply getitem_nd. Qed.
+
 (* FINDING (known): roll on an axis of extent 0 fails at run time *)
 Theorem C06_roll_extent0_refuted : ndx_roll {| shape := [0%nat]; data := @nil Z |} [1%Z] (Some [0%Z]) 0%Z = GetItem.RuntimeError.
 Proof. reflexivity. Qed.
